@@ -4,7 +4,7 @@
    Theorems quantify over ALL tries in normal form / ALL operation sequences / ALL byte strings. *)
 From Coq Require Import Sorted.
 From NG Require Import Common.Tactics Trie.Model Trie.Lemmas Trie.PutDelete Trie.Unique Trie.Batch Trie.History
-  Trie.Range Trie.Collapse Trie.Merkle Trie.Store Trie.StoreProofs Trie.StoreRC.
+  Trie.Range Trie.Collapse Trie.Merkle Trie.Store Trie.StoreProofs Trie.StoreRC Trie.Frame.
 
 (* ---------- byte keys are nibble paths (toNibbles), injectively ---------- *)
 
@@ -211,6 +211,41 @@ Theorem C10_reload_from_root : forall (H : bytes -> bytes), (forall x, length (H
 Proof. exact reload_from_root. Qed.
 Print Assumptions C10_reload_from_root.
 
+(* ---------- resolution is by value: updates frame every other path (Trie/Frame.v) ---------- *)
+
+(* an update below path p leaves the sub-trie at every path q that p does not pass through unchanged *)
+Theorem C10_put_frames_other_paths : forall t p v q, NF t -> path_ok p -> is_prefix q p = false ->
+  forall r, content (put t p v) (q ++ r) = content t (q ++ r).
+Proof. exact put_frames_other_paths. Qed.
+Print Assumptions C10_put_frames_other_paths.
+
+Theorem C10_delete_frames_other_paths : forall t p q, NF t -> is_prefix q p = false ->
+  forall r, content (delete t p) (q ++ r) = content t (q ++ r).
+Proof. exact delete_frames_other_paths. Qed.
+Print Assumptions C10_delete_frames_other_paths.
+
+(* the same through the store, on any partial collapse (byte-identical sub-tries are hash nodes with EQUAL hashes):
+   after a Put through one of them every key — read through whichever hash node — has the value of the map update *)
+Theorem C10_lazy_put_then_get : forall (H : bytes -> bytes), (forall x, length (H x) = 32) ->
+  forall st t, NF t -> bounded t -> store_wf H st -> stored H st t ->
+  forall c fuel p v, pcol H c t -> path_ok p -> height t + 1 <= fuel ->
+  collision H \/
+  exists c', sput fuel st c p v = Some c' /\
+             forall q fuel', height (put t p v) + 1 <= fuel' ->
+               sget fuel' st c' q = if path_eqb q p then Some v else content t q.
+Proof. exact lazy_put_then_get. Qed.
+Print Assumptions C10_lazy_put_then_get.
+
+Theorem C10_lazy_delete_then_get : forall (H : bytes -> bytes), (forall x, length (H x) = 32) ->
+  forall st t, NF t -> bounded t -> store_wf H st -> stored H st t ->
+  forall c fuel p, pcol H c t -> height t + 1 <= fuel ->
+  collision H \/
+  exists c', sdelete fuel st c p = Some c' /\
+             forall q fuel', height (delete t p) + 1 <= fuel' ->
+               sget fuel' st c' q = if path_eqb q p then None else content t q.
+Proof. exact lazy_delete_then_get. Qed.
+Print Assumptions C10_lazy_delete_then_get.
+
 (* ---------- the cached view of the stored reference counters (ModeLatest / ModeGC), Trie/StoreRC.v ---------- *)
 
 (* any sequence of addRef/removeRef bumps, reloads of nodes (getFromStore refreshing the cached counter, or not:
@@ -284,4 +319,18 @@ Example C10_ex_store :
   omap (root toyH) (sput_batch st c [([1;2], None); ([1;2;0;0], None); ([7], Some [3%N])]) =
     Some (root toyH (put_batch t [([1;2], None); ([1;2;0;0], None); ([7], Some [3%N])])) /\
   sdelete 9 [] r [1;2] = None.
+Proof. vm_compute. repeat split; reflexivity. Qed.
+
+(* three byte-identical two-key sub-tries under 1, 2, 3: after flush + collapse they are hash nodes of ONE hash;
+   a Put inside the copy under 1, then reads through the copies under 2 and 3 *)
+Example C10_ex_replicated :
+  let t := run [OPut [1;5;5] [7%N]; OPut [1;5;6] [8%N]; OPut [2;5;5] [7%N]; OPut [2;5;6] [8%N]; OPut [3;5;5] [7%N]; OPut [3;5;6] [8%N]] in
+  let st := flush toyH t [] in
+  let c := collapse toyH 1 t in
+  nth 1 (match c with Branch cs _ => cs | _ => [] end) Empty = nth 2 (match c with Branch cs _ => cs | _ => [] end) Empty /\
+  match sput 9 st c [1;5;5] [9%N] with
+  | Some c' => sget 9 st c' [1;5;5] = Some [9%N] /\ sget 9 st c' [2;5;5] = Some [7%N] /\ sget 9 st c' [3;5;5] = Some [7%N]
+               /\ root toyH c' = root toyH (put t [1;5;5] [9%N])
+  | None => False
+  end.
 Proof. vm_compute. repeat split; reflexivity. Qed.
